@@ -15,7 +15,7 @@ pub const OP_NAMES: &[&str] = &[
     "push", "insert", "remove", "swap_remove", "pop", "pop_if", "truncate", "clear", "resize", "resize_with", "ext_slice", "ext_within", "append",
     "reserve", "reserve_exact", "extend", "retain", "dedup_key", "dedup_by", "dedup", "drain", "extract_if", "shrink_to_fit", "shrink_to",
     "new", "drop", "split_off", "merge_back", "into_box", "into_iter", "map", "map_in_place", "splice", "noise", "finalize", "helper",
-    "split_at", "partition", "convert", "part_op", "claim_ops", "flatten",
+    "split_at", "partition", "convert", "part_op", "claim_ops", "flatten", "clone", "try_with",
 ];
 
 pub const K_PUSH: u16 = 0;
@@ -60,6 +60,8 @@ pub const K_CONVERT: u16 = 38;
 pub const K_PART_OP: u16 = 39;
 pub const K_CLAIM_OPS: u16 = 40;
 pub const K_FLATTEN: u16 = 41;
+pub const K_CLONE: u16 = 42;
+pub const K_TRY_WITH: u16 = 43;
 
 pub const LAST_COMMON: u16 = K_SHRINK_TO;
 
@@ -89,6 +91,8 @@ pub struct Ctx<'t> {
     /// the arena the vectors were created from is currently claimed (C14): every request for memory through
     /// the vectors' allocator handle must fail, by `Err` or by the unwinding "bump allocator is claimed" panic
     pub claimed: bool,
+    /// some operation of this run failed for lack of memory (what C07 is about)
+    pub had_failure: bool,
 }
 
 /// Capacity promise of `with_capacity` / `reserve` (C08).
@@ -125,6 +129,7 @@ impl<'t> Ctx<'t> {
             verbose: std::env::var_os("SIM_VERBOSE").is_some(),
             drop_panicked: false,
             claimed: false,
+            had_failure: false,
         }
     }
 
@@ -177,7 +182,10 @@ impl<'t> Ctx<'t> {
         heap::with(0, |h| h.end_op());
         match r {
             Ok(Ok(v)) => Outcome::Ok(v),
-            Ok(Err(())) => Outcome::AllocFailed,
+            Ok(Err(())) => {
+                self.had_failure = true;
+                Outcome::AllocFailed
+            }
             Err(p) => match classify_panic(p) {
                 Caught::Injected(n) => {
                     if n == u32::MAX {
@@ -414,6 +422,8 @@ pub fn exec_common<E: Elem, V: VecApi<E>>(ctx: &mut Ctx, v: &mut V, m: &mut Vec<
     let name = OP_NAMES[k as usize];
     ctx.stats.bump(&format!("op.{name}"));
     let try_forced = !ctx.panicking_ok(op);
+    // did the operation go through a try_-prefixed method (those must never unwind on their own, C07)
+    let mut used_try = try_forced;
     let ptr_before = v.data_ptr();
     let mut want_panic = false;
     let mut voids_promise = false;
@@ -428,6 +438,7 @@ pub fn exec_common<E: Elem, V: VecApi<E>>(ctx: &mut Ctx, v: &mut V, m: &mut Vec<
         K_PUSH => {
             let x = ctx.fresh_val();
             let form = if try_forced { op.a[1] as u8 | 1 } else { op.a[1] as u8 };
+            used_try = form & 1 == 1;
             fixed_full = room < 1;
             Model::push(&mut expect, rev, x);
             let e = E::new(x);
@@ -437,6 +448,7 @@ pub fn exec_common<E: Elem, V: VecApi<E>>(ctx: &mut Ctx, v: &mut V, m: &mut Vec<
             let i = idx_arg(op.a[0], len);
             let x = ctx.fresh_val();
             let form = if try_forced { op.a[1] as u8 | 1 } else { op.a[1] as u8 };
+            used_try = form & 1 == 1;
             if i > len {
                 want_panic = true;
             } else {
@@ -516,6 +528,7 @@ pub fn exec_common<E: Elem, V: VecApi<E>>(ctx: &mut Ctx, v: &mut V, m: &mut Vec<
             let n = (op.a[0] as usize) % 48;
             let x = ctx.fresh_val();
             let try_ = try_forced || op.a[1] & 1 == 1;
+            used_try = try_;
             fixed_full = n > len && n - len > room;
             Model::resize(&mut expect, rev, n, x);
             if k == K_RESIZE {
@@ -537,6 +550,7 @@ pub fn exec_common<E: Elem, V: VecApi<E>>(ctx: &mut Ctx, v: &mut V, m: &mut Vec<
         K_EXT_SLICE => {
             let n = (op.a[0] as usize) % 12;
             let try_ = try_forced || op.a[1] & 1 == 1;
+            used_try = try_;
             let xs: Vec<u32> = (0..n).map(|_| ctx.fresh_val()).collect();
             let src: Vec<E> = xs.iter().map(|&x| E::new(x)).collect();
             fixed_full = n > room;
@@ -548,6 +562,7 @@ pub fn exec_common<E: Elem, V: VecApi<E>>(ctx: &mut Ctx, v: &mut V, m: &mut Vec<
         K_EXT_WITHIN => {
             let (r, valid) = range_arg(op.a[0], op.a[1], len);
             let try_ = try_forced || op.a[2] & 1 == 1;
+            used_try = try_;
             match valid {
                 Some((s, e)) => {
                     fixed_full = e - s > room;
@@ -561,6 +576,7 @@ pub fn exec_common<E: Elem, V: VecApi<E>>(ctx: &mut Ctx, v: &mut V, m: &mut Vec<
         K_APPEND => {
             let n = (op.a[1] as usize) % 10;
             let try_ = try_forced || op.a[2] & 1 == 1;
+            used_try = try_;
             match op.a[0] % 4 {
                 0 => {
                     let xs = [ctx.fresh_val(), ctx.fresh_val(), ctx.fresh_val()];
@@ -609,6 +625,7 @@ pub fn exec_common<E: Elem, V: VecApi<E>>(ctx: &mut Ctx, v: &mut V, m: &mut Vec<
                 _ => (op.a[0] / 8) as usize % 64,
             };
             let try_ = try_forced || op.a[1] & 1 == 1 || n > 4096;
+            used_try = try_;
             fixed_full = n > room;
             let r = if k == K_RESERVE { ctx.call(op, drop_panics, || v.v_reserve(n, try_)) } else { ctx.call(op, drop_panics, || v.v_reserve_exact(n, try_)) };
             if matches!(r, Outcome::Ok(())) && !E::ZST {
@@ -901,8 +918,9 @@ pub fn exec_common<E: Elem, V: VecApi<E>>(ctx: &mut Ctx, v: &mut V, m: &mut Vec<
             } else {
                 if ctx.on.c08 {
                     ctx.viol("C08/panic-mismatch", format!("{what}: panicked ({msg}) where std's Vec does not (len {len})"));
-                } else if ctx.on.c07 && try_forced {
-                    ctx.viol("C07/try-method-unwound", format!("{what}: panicked: {msg}"));
+                }
+                if ctx.on.c07 && used_try {
+                    ctx.viol("C07/try-method-unwound", format!("{what} (try_ form): panicked: {msg}"));
                 }
                 resync(ctx, v, m);
             }
